@@ -193,7 +193,18 @@ func c01ProcessN(ctx *Ctx, res *Result, b c01Bad, reduce bool, measured int) *Vi
 				cpu = c01RunCase(ctx, red, wd).CPU
 			}
 		}
-		fam, st := c01HangFamily(ctx, red, cpu, v.Kind == "time")
+		fam, st := "", []string(nil)
+		// differential evidence first: the run is recursive, the tree contains a SUBDIR entry that
+		// names its own directory (or an ancestor), and without those lines the run is quick
+		if variant, ok := c01WithoutSelfSubdirs(red); ok {
+			x := c01RunCaseOnce(ctx, variant, 30*wd, int(c01CPULimit(variant.Spec.Size())/time.Second))
+			if !x.TimedOut && x.Exit >= 0 && x.CPU < c01CPULimit(variant.Spec.Size())/4 {
+				fam = "subdir-self-reference"
+			}
+		}
+		if fam == "" {
+			fam, st = c01HangFamily(ctx, red, cpu, v.Kind == "time")
+		}
 		stack = st
 		kind := v.Kind
 		if probe || fam == "nested-modifier-reparse" {
@@ -498,6 +509,7 @@ func c01RunStreams(ctx *Ctx, res *Result) {
 	stat := map[string]int{}
 	var maxCPU time.Duration
 	var samples []any
+	var hangs int64
 	parallelFor(total, func(i int) {
 		stream := "malformed"
 		if i < nValid {
@@ -509,8 +521,24 @@ func c01RunStreams(ctx *Ctx, res *Result) {
 		c := c01GenCase(ctx, i, stream)
 		genT := time.Since(tg)
 		size := c.Spec.Size()
-		r := c01RunCase(ctx, c, c01Timeout(ctx, c))
+		var r RunResult
+		if atomic.LoadInt64(&hangs) < 6 {
+			r = c01RunCase(ctx, c, c01Timeout(ctx, c))
+		} else {
+			// enough hanging cases to work on: on a tree that hangs often, every further one would
+			// cost its whole CPU limit; an expired watchdog is only counted from here on
+			r = c01RunCaseOnce(ctx, c, c01Timeout(ctx, c), c01CPUSeconds(size))
+			if r.TimedOut {
+				mu.Lock()
+				stat["hang.not-escalated"]++
+				mu.Unlock()
+				r = RunResult{Exit: 1}
+			}
+		}
 		v := c01Judge(r, size)
+		if v.Kind == "hang" {
+			atomic.AddInt64(&hangs, 1)
+		}
 		h := c01Hash(c)
 		mu.Lock()
 		defer mu.Unlock()
